@@ -47,14 +47,14 @@ pub fn reprs_for(spec: &ModelSpec) -> (Vec<Repr>, Vec<Repr>) {
         Kind::Table { .. } => {}
         Kind::Uniform { .. } => {
             if spec.pb <= 32 {
-                enc.extend([Repr::GenEnc, Repr::FromTable, Repr::NonContig]);
-                dec.extend([Repr::GenDec, Repr::FromTable, Repr::NonContig]);
+                enc.extend([Repr::GenEnc, Repr::FromTable, Repr::NonContig, Repr::NonContigPaged]);
+                dec.extend([Repr::GenDec, Repr::FromTable, Repr::NonContig, Repr::NonContigPaged]);
                 if lookup_ok { dec.push(Repr::GenLookup); }
             }
         }
         Kind::Cat { perfect, .. } => {
-            enc.extend([Repr::View, Repr::GenEnc, Repr::FromTable, Repr::NonContig]);
-            dec.extend([Repr::View, Repr::GenDec, Repr::FromTable, Repr::NonContig]);
+            enc.extend([Repr::View, Repr::GenEnc, Repr::FromTable, Repr::NonContig, Repr::NonContigPaged]);
+            dec.extend([Repr::View, Repr::GenDec, Repr::FromTable, Repr::NonContig, Repr::NonContigPaged]);
             if !*perfect {
                 enc.push(Repr::Lazy);
                 dec.push(Repr::Lazy);
@@ -67,16 +67,16 @@ pub fn reprs_for(spec: &ModelSpec) -> (Vec<Repr>, Vec<Repr>) {
             }
         }
         Kind::Fixed { .. } => {
-            enc.extend([Repr::View, Repr::GenEnc, Repr::FromTable, Repr::NonContig]);
-            dec.extend([Repr::View, Repr::GenDec, Repr::FromTable, Repr::NonContig]);
+            enc.extend([Repr::View, Repr::GenEnc, Repr::FromTable, Repr::NonContig, Repr::NonContigPaged]);
+            dec.extend([Repr::View, Repr::GenDec, Repr::FromTable, Repr::NonContig, Repr::NonContigPaged]);
             if lookup_ok {
                 enc.push(Repr::LookupBack);
                 dec.extend([Repr::Lookup, Repr::GenLookup, Repr::LookupCtor, Repr::LookupBack, Repr::NonContigLookupCtor, Repr::NonContigLookupBack]);
             }
         }
         Kind::Quant { .. } => {
-            enc.extend([Repr::GenEnc, Repr::FromTable, Repr::NonContig]);
-            dec.extend([Repr::GenDec, Repr::FromTable, Repr::NonContig]);
+            enc.extend([Repr::GenEnc, Repr::FromTable, Repr::NonContig, Repr::NonContigPaged]);
+            dec.extend([Repr::GenDec, Repr::FromTable, Repr::NonContig, Repr::NonContigPaged]);
             if lookup_ok { dec.push(Repr::GenLookup); }
         }
     }
